@@ -245,7 +245,7 @@ Lemma scan_run f : forall x l room, forallb f x = true -> stops f l -> (length x
   scan f (x ++ l) room = length x.
 Proof.
   induction x as [|a x IH]; intros l room Hx Hl Hr.
-  - cbn [app length]. destruct room; [reflexivity|]. destruct l as [|c l]; [reflexivity|].
+  - cbn [app length]. destruct l as [|c l]; [destruct room; reflexivity|]. destruct room; [reflexivity|].
     cbn [scan]. cbn [stops] in Hl. rewrite Hl. reflexivity.
   - cbn [forallb] in Hx. apply andb_true_iff in Hx. destruct Hx as [Ha Hx].
     cbn [length] in Hr. destruct room as [|room]; [lia|]. cbn [app scan length]. rewrite Ha.
@@ -287,7 +287,7 @@ Proof.
   intros H. unfold next_char. rewrite at_end_st by exact H.
   pose proof (W_ascii _ _ H) as Ha. inversion Ha as [|? ? Hc _]; subst.
   cbn [s_rest st]. rewrite decode1_ascii by exact Hc.
-  destruct H as [_ H]. rewrite blen_cons in H. cbn [s_end s_pos].
+  destruct H as [_ H]. rewrite blen_cons in H. cbn [st s_end s_pos].
   replace (tlen text <? p + 1) with false by lia. reflexivity.
 Qed.
 
@@ -305,7 +305,7 @@ Proof.
     + rewrite next_char_st by exact HW. cbn [bind]. destruct Hl as [H1 H2]. rewrite H1, H2. reflexivity.
   - destruct fuel as [|fu]; [cbn in Hf; lia|]. cbn [length] in Hf.
     cbn [app] in *. cbn [skip_chars_loop]. rewrite next_char_st by exact HW. cbn [bind].
-    destruct Hx as (H1 & H2 & H3). rewrite H1, H2. cbn [negb].
+    cbn [walk_ok app] in Hx. destruct Hx as (H1 & H2 & H3). rewrite H1, H2. cbn [negb].
     rewrite advance1_st by exact HW. cbn [bind]. rewrite blen_cons.
     replace (p + (1 + blen x)) with (p + 1 + blen x) by lia.
     apply IH; [apply W_cons in HW; exact HW|exact H3| |lia].
@@ -401,6 +401,466 @@ Proof.
   rewrite mk_slice_ok by lia. cbn [bind]. unfold slice_len. cbn [sl sl_start sl_end].
   replace (p + 1 + blen x - p =? 0) with false by lia.
   replace (p + 1 + blen x) with (p + (1 + blen x)) by lia. reflexivity.
+Qed.
+
+(*CONT*)
+(* ------------------------------------------------------------------------------------------ *)
+(* M1: the productions                                                                        *)
+(* ------------------------------------------------------------------------------------------ *)
+
+Variable C : Type.
+Variable ev : token -> C -> res C.
+
+(* ---- comments ---- *)
+
+Definition comment_ok (bs : bytes) : Prop :=
+  forallb Cst.is_plain bs = true /\ contains_b [45; 45] bs = false /\ ends_with_byte 45 bs = false.
+
+Lemma ends_with_cons c x r : ends_with_byte c (x :: r) =
+  match r with [] => x =? c | _ => ends_with_byte c r end.
+Proof.
+  unfold ends_with_byte. destruct r as [|y r]; [reflexivity|].
+  cbn [rev]. destruct (rev r ++ [y]) as [|z t] eqn:E.
+  - destruct (rev r); discriminate.
+  - reflexivity.
+Qed.
+
+Definition comment_f (s : stream) (ch : N) : bool := negb ((ch =? 45) && starts_with s [45; 45; 62]).
+
+Lemma comment_walk : forall bs p post, W p (bs ++ [45; 45; 62] ++ post) -> comment_ok bs ->
+  walk_ok comment_f p bs ([45; 45; 62] ++ post).
+Proof.
+  induction bs as [|c r IH]; intros p post HW (H1 & H2 & H3); cbn [walk_ok]; [exact I|].
+  cbn [forallb] in H1. apply andb_true_iff in H1. destruct H1 as [Hc H1].
+  destruct (plain_char _ Hc) as (L & K & _).
+  cbn [contains_b] in H2. apply orb_false_iff in H2. destruct H2 as [H2 H2'].
+  rewrite ends_with_cons in H3.
+  split; [exact K|]. split.
+  - unfold comment_f. rewrite starts_with_st by exact HW.
+    destruct (c =? 45) eqn:E; [|reflexivity]. cbn [andb]. apply N.eqb_eq in E. subst c.
+    destruct r as [|y r].
+    + discriminate.
+    + cbn [app prefix_b] in *. rewrite N.eqb_refl in *. cbn [andb] in *.
+      destruct (45 =? y); [discriminate|reflexivity].
+  - apply IH; [apply (W_cons _ _ _ HW)|]. split; [exact H1|]. split; [exact H2'|].
+    destruct r; [reflexivity|exact H3].
+Qed.
+
+Lemma lex_comment p bs post c : W p ([60; 33; 45; 45] ++ bs ++ [45; 45; 62] ++ post) -> comment_ok bs ->
+  parse_comment text C ev (st p ([60; 33; 45; 45] ++ bs ++ [45; 45; 62] ++ post)) c =
+  let! c' := ev (TComment (sl (p + 4) (p + 4 + blen bs)) (p, p + 4 + blen bs + 3)) c in
+  Ok (st (p + 4 + blen bs + 3) post, c').
+Proof.
+  intros HW Hok. unfold parse_comment. cbv zeta.
+  rewrite (advance_st 4 p [60; 33; 45; 45]) by (try reflexivity; exact HW). cbn [bind].
+  pose proof (W_app _ _ _ HW) as HW1. change (blen [60; 33; 45; 45]) with 4 in HW1.
+  change (b "-->") with [45; 45; 62]. change (b "--") with [45; 45].
+  change (fun (s : stream) (ch : N) => negb ((ch =? 45) && starts_with s [45; 45; 62])) with comment_f.
+  rewrite consume_chars_st; [|exact HW1|apply comment_walk; assumption|].
+  2:{ cbn [walk_stop app]. split; [reflexivity|]. unfold comment_f.
+      rewrite starts_with_st by (apply (W_app _ _ _ HW1)). reflexivity. }
+  cbn [bind]. pose proof (W_app _ _ _ HW1) as HW2.
+  rewrite skip_string_st by exact HW2. cbn [bind].
+  rewrite (W_slice _ _ _ HW1). destruct Hok as (_ & H2 & H3). rewrite H2, H3.
+  cbn [st s_pos]. change (blen [45; 45; 62]) with 3. reflexivity.
+Qed.
+
+(* ---- text ---- *)
+
+Definition text_ok (bs : bytes) : Prop :=
+  forallb (fun x => Cst.is_plain x && negb (x =? 60) && negb (x =? 38)) bs = true /\
+  contains_b [93; 93; 62] bs = false.
+Definition text_stop (l : bytes) : Prop := match l with [] => True | c :: _ => c = 60 end.
+
+Definition text_f (_ : stream) (ch : N) : bool := negb (ch =? 60).
+
+Lemma text_walk : forall bs p post,
+  forallb (fun x => Cst.is_plain x && negb (x =? 60) && negb (x =? 38)) bs = true ->
+  walk_ok text_f p bs post.
+Proof.
+  induction bs as [|c r IH]; intros p post H; cbn [walk_ok]; [exact I|].
+  cbn [forallb] in H. apply andb_true_iff in H. destruct H as [Hc H].
+  apply andb_true_iff in Hc. destruct Hc as [Hc H38]. apply andb_true_iff in Hc. destruct Hc as [Hc H60].
+  destruct (plain_char _ Hc) as (L & K & _).
+  split; [exact K|]. split; [exact H60|]. apply IH. exact H.
+Qed.
+
+Lemma lex_text p bs post c : W p (bs ++ post) -> text_ok bs -> text_stop post ->
+  parse_text text C ev (st p (bs ++ post)) c =
+  let! c' := ev (TText (sl p (p + blen bs)) (p, p + blen bs)) c in Ok (st (p + blen bs) post, c').
+Proof.
+  intros HW [H1 H2] Hs. unfold parse_text. cbv zeta.
+  change (fun (_ : stream) (ch : N) => negb (ch =? 60)) with text_f.
+  rewrite consume_chars_st; [|exact HW|apply text_walk; exact H1|].
+  2:{ destruct post as [|x post]; cbn [walk_stop]; [exact I|]. cbn [text_stop] in Hs. subst x.
+      split; reflexivity. }
+  cbn [bind]. rewrite (W_slice _ _ _ HW). change (b "]]>") with [93; 93; 62]. rewrite H2, andb_false_r.
+  reflexivity.
+Qed.
+
+(* ---- processing instructions ---- *)
+
+Definition pi_f (s : stream) (ch : N) : bool := negb ((ch =? 63) && starts_with s [63; 62]).
+
+Lemma pi_walk : forall v p post, W p (v ++ [63; 62] ++ post) ->
+  forallb Cst.is_plain v = true -> contains_b [63; 62] v = false ->
+  walk_ok pi_f p v ([63; 62] ++ post).
+Proof.
+  induction v as [|c r IH]; intros p post HW H1 H2; cbn [walk_ok]; [exact I|].
+  cbn [forallb] in H1. apply andb_true_iff in H1. destruct H1 as [Hc H1].
+  destruct (plain_char _ Hc) as (L & K & _).
+  cbn [contains_b] in H2. apply orb_false_iff in H2. destruct H2 as [H2 H2'].
+  split; [exact K|]. split.
+  - unfold pi_f. rewrite starts_with_st by exact HW.
+    destruct (c =? 63) eqn:E; [|reflexivity]. cbn [andb]. apply N.eqb_eq in E. subst c.
+    destruct r as [|y r].
+    + reflexivity.
+    + cbn [app prefix_b] in *. rewrite N.eqb_refl in *. cbn [andb] in *.
+      destruct (62 =? y); [discriminate|reflexivity].
+  - apply IH; [apply (W_cons _ _ _ HW)|exact H1|exact H2'].
+Qed.
+
+Definition pi_ok (target sep value : bytes) : Prop :=
+  Cst.wf_name target = true /\ Cst.wf_ws sep = true /\ forallb Cst.is_plain value = true /\
+  contains_b [63; 62] value = false /\ Cst.prefix_is_xml target = false /\
+  match value with
+  | [] => True
+  | x :: _ => Cst.is_ws x = false /\ sep <> []
+  end.
+
+(* the byte after a PI target is not a name byte; the byte after the separator is not a space *)
+Lemma pi_after_target target sep value post : pi_ok target sep value ->
+  name_stop (sep ++ value ++ [63; 62] ++ post) /\ stops byte_is_space (value ++ [63; 62] ++ post).
+Proof.
+  intros (_ & Hs & Hv & _ & _ & Hx). split.
+  - destruct sep as [|s sep].
+    + destruct value as [|x v]; [|destruct Hx as [_ Hx]; congruence].
+      cbn [app name_stop]. apply not_name_byte_lit. auto.
+    + cbn [app name_stop]. cbn [Cst.wf_ws forallb] in Hs. apply andb_true_iff in Hs.
+      apply ws_not_name_byte. apply Hs.
+  - destruct value as [|x v]; cbn [app stops]; [reflexivity|].
+    cbn [forallb] in Hv. apply andb_true_iff in Hv. destruct Hv as [Hp _]. destruct Hx as [Hx _].
+    apply plain_space; assumption.
+Qed.
+
+Lemma not_xml_decl target rest : Cst.wf_name target = true -> Cst.prefix_is_xml target = false ->
+  match rest with [] => True | c :: _ => Cst.is_name_char c = false end ->
+  prefix_b [120; 109; 108; 32] (target ++ rest) = false.
+Proof.
+  intros Hn Hx Hr.
+  assert (Hall : forallb Cst.is_name_char target = true).
+  { destruct target as [|a t]; [discriminate|]. cbn [Cst.wf_name] in Hn.
+    apply andb_true_iff in Hn. destruct Hn as [Ha Ht]. cbn [forallb].
+    rewrite (name_start_char _ Ha), Ht. reflexivity. }
+  destruct (prefix_b [120; 109; 108; 32] (target ++ rest)) eqn:E; [|reflexivity]. exfalso.
+  destruct target as [|a [|b0 [|c0 [|d0 t]]]]; cbn [app prefix_b forallb] in *.
+  - discriminate.
+  - destruct rest as [|r rest]; [rewrite andb_false_r in E; discriminate|].
+    assert (r = 109) by lia. subst r. vm_compute in Hr. discriminate.
+  - destruct rest as [|r rest]; [rewrite !andb_false_r in E; discriminate|].
+    assert (r = 108) by lia. subst r. vm_compute in Hr. discriminate.
+  - assert (a = 120 /\ b0 = 109 /\ c0 = 108) as (-> & -> & ->) by lia. discriminate.
+  - assert (d0 = 32) by lia. subst d0. rewrite !andb_true_iff in Hall.
+    destruct Hall as (_ & _ & _ & Hd & _). vm_compute in Hd. discriminate.
+Qed.
+
+Lemma name_stop_char l : name_stop l -> match l with [] => True | c :: _ => Cst.is_name_char c = false end.
+Proof. destruct l; [auto|]. cbn [name_stop]. apply not_name_byte_char. Qed.
+
+Lemma lex_pi p target sep value post c :
+  W p ([60; 63] ++ target ++ sep ++ value ++ [63; 62] ++ post) -> pi_ok target sep value ->
+  let e := p + 2 + blen target + blen sep + blen value in
+  parse_pi text C ev (st p ([60; 63] ++ target ++ sep ++ value ++ [63; 62] ++ post)) c =
+  let! c' := ev (TPI (sl (p + 2) (p + 2 + blen target))
+                     (match value with [] => None | _ => Some (sl (p + 2 + blen target + blen sep) e) end)
+                     (p, e + 2)) c in
+  Ok (st (e + 2) post, c').
+Proof.
+  intros HW Hok e. pose proof (pi_after_target _ _ _ post Hok) as [Hst1 Hst2].
+  destruct Hok as (Hn & Hs & Hv & Hc & Hx & Hfirst).
+  unfold parse_pi. rewrite starts_with_st by exact HW.
+  change (b "<?xml ") with [60; 63; 120; 109; 108; 32]. cbn [app prefix_b]. rewrite !N.eqb_refl. cbn [andb].
+  change (match target ++ sep ++ value ++ 63 :: 62 :: post with
+          | [] => false
+          | c0 :: l' => (120 =? c0) && match l' with [] => false | c1 :: l'0 => (109 =? c1) && match l'0 with [] => false | c2 :: l'1 => (108 =? c2) && match l'1 with [] => false | c3 :: _ => (32 =? c3) && true end end end end)
+    with (prefix_b [120; 109; 108; 32] (target ++ sep ++ value ++ [63; 62] ++ post)).
+  rewrite not_xml_decl; [|exact Hn|exact Hx|apply name_stop_char; exact Hst1]. cbv zeta.
+  change (60 :: 63 :: target ++ sep ++ value ++ 63 :: 62 :: post)
+    with ([60; 63] ++ target ++ sep ++ value ++ [63; 62] ++ post).
+  rewrite (advance_st 2 p [60; 63]) by (try reflexivity; exact HW). cbn [bind].
+  pose proof (W_app _ _ _ HW) as HW1. change (blen [60; 63]) with 2 in HW1.
+  rewrite consume_name_st; [|exact HW1|exact Hn|exact Hst1]. cbn [bind].
+  pose proof (W_app _ _ _ HW1) as HW2.
+  rewrite skip_spaces_st; [|exact HW2|apply ws_spaces; exact Hs|exact Hst2].
+  pose proof (W_app _ _ _ HW2) as HW3.
+  change (b "?>") with [63; 62].
+  change (fun (s : stream) (ch : N) => negb ((ch =? 63) && starts_with s [63; 62])) with pi_f.
+  rewrite consume_chars_st; [|exact HW3|apply pi_walk; assumption|].
+  2:{ cbn [walk_stop app]. split; [reflexivity|]. unfold pi_f.
+      rewrite starts_with_st by (apply (W_app _ _ _ HW3)). reflexivity. }
+  cbn [bind]. pose proof (W_app _ _ _ HW3) as HW4.
+  rewrite skip_string_st by exact HW4. cbn [bind]. cbn [st s_pos]. change (blen [63; 62]) with 2.
+  unfold slice_len. cbn [sl sl_start sl_end]. fold e.
+  replace (p + 2 + blen target + blen sep + blen value) with e by reflexivity.
+  destruct value as [|x v].
+  - rewrite blen_nil in *. replace (e - (p + 2 + blen target + blen sep) =? 0) with true by (unfold e; rewrite blen_nil; lia).
+    reflexivity.
+  - replace (e - (p + 2 + blen target + blen sep) =? 0) with false by (unfold e; rewrite blen_cons; lia).
+    reflexivity.
+Qed.
+
+(* ---- start tags ---- *)
+
+Fixpoint evs (l : list token) (c : C) : res C :=
+  match l with [] => Ok c | t :: r => let! c' := ev t c in evs r c' end.
+
+Lemma evs_app l1 l2 c : evs (l1 ++ l2) c = let! c' := evs l1 c in evs l2 c'.
+Proof.
+  revert c. induction l1 as [|t l1 IH]; intros c; cbn [app evs bind]; [reflexivity|].
+  destruct (ev t c); cbn [bind]; auto.
+Qed.
+
+Lemma is_xml_str_ascii_ok : forall l i, forallb byte_is_char l = true -> is_xml_str_ascii text l i = Ok tt.
+Proof.
+  induction l as [|x l IH]; intros i H; cbn [is_xml_str_ascii]; [reflexivity|].
+  cbn [forallb] in H. apply andb_true_iff in H. destruct H as [H1 H2]. rewrite H1. cbn [negb].
+  apply IH. exact H2.
+Qed.
+
+Lemma find_idx_run f : forall x c l, forallb (fun y => negb (f y)) x = true -> f c = true ->
+  find_idx f (x ++ c :: l) = Some (blen x).
+Proof.
+  induction x as [|a x IH]; intros c l Hx Hc; cbn [app find_idx].
+  - rewrite Hc. reflexivity.
+  - cbn [forallb] in Hx. apply andb_true_iff in Hx. destruct Hx as [Ha Hx].
+    destruct (f a); [discriminate|]. rewrite IH by assumption. rewrite blen_cons. f_equal. lia.
+Qed.
+
+Definition attr_tok (q : N) (a : Cst.attr) : token :=
+  let start := q + blen (Cst.a_ws a) in
+  let ne := start + blen (Cst.a_name a) in
+  let eqe := ne + blen (Cst.a_ws1 a) + 1 + blen (Cst.a_ws2 a) in
+  let vs := eqe + 1 in
+  let ve := vs + blen (Cst.a_value a) in
+  TAttribute (start, ve + 1) (N.min (ne - start) qname_len_sat) (N.min (eqe - ne) eq_len_sat)
+             (sl start start) (sl start ne) (sl vs ve).
+
+Fixpoint attr_toks (q : N) (attrs : list Cst.attr) : list token :=
+  match attrs with
+  | [] => []
+  | a :: r => attr_tok q a :: attr_toks (q + blen (Cst.r_attr a)) r
+  end.
+
+Lemma wf_attr_parts a : Cst.wf_attr a = true ->
+  Cst.a_ws a <> [] /\ Cst.wf_ws (Cst.a_ws a) = true /\ Cst.wf_name (Cst.a_name a) = true /\
+  Cst.wf_ws (Cst.a_ws1 a) = true /\ Cst.wf_ws (Cst.a_ws2 a) = true /\
+  (Cst.a_quote a = 39 \/ Cst.a_quote a = 34) /\
+  forallb (fun x => Cst.is_plain x && negb (x =? 60) && negb (x =? 38) && negb (x =? Cst.a_quote a)
+                    && negb (x =? 9) && negb (x =? 10)) (Cst.a_value a) = true.
+Proof.
+  unfold Cst.wf_attr. rewrite !andb_true_iff. intros (((((H1 & H2) & H3) & H4) & H5) & H6).
+  repeat split; try assumption.
+  - unfold Cst.wf_ws1 in H1. destruct (Cst.a_ws a); [discriminate|discriminate].
+  - unfold Cst.wf_ws1 in H1. unfold Cst.wf_ws. destruct (Cst.a_ws a); [reflexivity|exact H1].
+  - lia.
+Qed.
+
+Lemma forallb_imp {A} (f g : A -> bool) l : (forall x, f x = true -> g x = true) ->
+  forallb f l = true -> forallb g l = true.
+Proof.
+  intros H. induction l as [|x l IH]; cbn [forallb]; [reflexivity|].
+  intros K. apply andb_true_iff in K. destruct K as [K1 K2]. rewrite (H _ K1), IH by exact K2. reflexivity.
+Qed.
+
+Lemma ws_stop_name w l : Cst.wf_ws w = true -> name_stop l -> name_stop (w ++ l).
+Proof.
+  destruct w as [|x w]; [auto|]. intros H _. cbn [app name_stop].
+  cbn [Cst.wf_ws forallb] in H. apply andb_true_iff in H. apply ws_not_name_byte. apply H.
+Qed.
+
+Lemma lex_attr_iter fuel ts q a more c : W q (Cst.r_attr a ++ more) -> Cst.wf_attr a = true ->
+  parse_element_loop text C ev (S fuel) ts (st q (Cst.r_attr a ++ more)) c =
+  let! c' := ev (attr_tok q a) c in
+  parse_element_loop text C ev fuel ts (st (q + blen (Cst.r_attr a)) more) c'.
+Proof.
+  intros HW Hwf. destruct (wf_attr_parts _ Hwf) as (Hne & Hws & Hn & Hw1 & Hw2 & Hq & Hv).
+  unfold attr_tok. cbv zeta.
+  assert (Elen : blen (Cst.r_attr a) = blen (Cst.a_ws a) + blen (Cst.a_name a) + blen (Cst.a_ws1 a) + 1
+                  + blen (Cst.a_ws2 a) + 1 + blen (Cst.a_value a) + 1).
+  { unfold Cst.r_attr. rewrite !blen_app, !blen_cons, blen_nil. lia. }
+  rewrite Elen. clear Elen.
+  unfold Cst.r_attr in *. rewrite <- !app_assoc in *. cbn [app] in *.
+  destruct a as [ws name ws1 ws2 quote value]. cbn [Cst.a_ws Cst.a_name Cst.a_ws1 Cst.a_ws2 Cst.a_quote Cst.a_value] in *.
+  destruct ws as [|w ws]; [congruence|]. clear Hne.
+  destruct name as [|n name]; [discriminate|].
+  assert (Hn0 : Cst.is_name_start n = true).
+  { cbn [Cst.wf_name] in Hn. apply andb_true_iff in Hn. apply Hn. }
+  destruct (name_start_byte _ Hn0) as (_ & _ & Hnsp & Hn47 & Hn62 & _).
+  cbn [parse_element_loop]. rewrite at_end_st by exact HW. cbn [app].
+  unfold starts_with_space. change ((w :: ws) ++ ?l) with (w :: ws ++ l) in *.
+  rewrite curr_byte_opt_st by exact HW.
+  assert (Hwsp : byte_is_space w = true).
+  { cbn [Cst.wf_ws forallb] in Hws. apply andb_true_iff in Hws. apply ws_space. apply Hws. }
+  rewrite Hwsp. cbv zeta.
+  change (w :: ws ++ ?l) with ((w :: ws) ++ l) in *.
+  rewrite skip_spaces_st; [|exact HW|apply ws_spaces; exact Hws|cbn [app stops]; exact Hnsp].
+  pose proof (W_app _ _ _ HW) as HW1. cbn [st s_pos].
+  set (start := q + blen (w :: ws)) in *.
+  change ((n :: name) ++ ?l) with (n :: name ++ l) in *.
+  fold (st start (n :: name ++ ws1 ++ 61 :: ws2 ++ quote :: value ++ quote :: more)).
+  rewrite curr_byte_st by exact HW1. cbn [bind].
+  replace (n =? 47) with false by lia. replace (n =? 62) with false by lia.
+  change (n :: name ++ ?l) with ((n :: name) ++ l) in *.
+  rewrite consume_qname_st; [|exact HW1|exact Hn|].
+  2:{ apply ws_stop_name; [exact Hw1|]. cbn [name_stop]. apply not_name_byte_lit. auto. }
+  cbn [bind]. pose proof (W_app _ _ _ HW1) as HW2. set (ne := start + blen (n :: name)) in *.
+  unfold consume_eq.
+  rewrite skip_spaces_st; [|exact HW2|apply ws_spaces; exact Hw1|reflexivity].
+  pose proof (W_app _ _ _ HW2) as HW3.
+  rewrite consume_byte_st by exact HW3. cbn [bind].
+  pose proof (W_cons _ _ _ HW3) as HW4.
+  rewrite skip_spaces_st; [|exact HW4|apply ws_spaces; exact Hw2|].
+  2:{ cbn [stops]. destruct Hq as [-> | ->]; reflexivity. }
+  pose proof (W_app _ _ _ HW4) as HW5. cbn [st s_pos].
+  set (eqe := ne + blen ws1 + 1 + blen ws2) in *.
+  fold (st eqe (quote :: value ++ quote :: more)).
+  unfold consume_quote. rewrite curr_byte_st by exact HW5. cbn [bind].
+  replace ((quote =? 39) || (quote =? 34)) with true by lia.
+  rewrite advance1_st by exact HW5. cbn [bind].
+  pose proof (W_cons _ _ _ HW5) as HW6. cbn [st s_pos].
+  fold (st (eqe + 1) (value ++ quote :: more)).
+  unfold advance_until2. rewrite avail_st by exact HW6.
+  rewrite find_idx_run.
+  2:{ eapply forallb_imp; [|exact Hv]. intros x Hx. cbv beta in Hx. lia. }
+  2:{ rewrite N.eqb_refl. reflexivity. }
+  rewrite advance_st by (try reflexivity; exact HW6). cbn [bind].
+  pose proof (W_app _ _ _ HW6) as HW7. unfold slice_back. cbn [st s_pos].
+  rewrite mk_slice_ok by (pose proof (W_le _ _ HW7); lia). cbn [bind].
+  unfold is_xml_str. rewrite (W_slice _ _ _ HW6).
+  assert (Ha : forallb (fun x => x <? 128) value = true).
+  { eapply forallb_imp; [|exact Hv]. intros x Hx. cbv beta in Hx.
+    assert (Hp : Cst.is_plain x = true) by lia. destruct (plain_char _ Hp). lia. }
+  rewrite Ha. rewrite is_xml_str_ascii_ok.
+  2:{ eapply forallb_imp; [|exact Hv]. intros x Hx. cbv beta in Hx.
+      apply plain_byte_char; lia. }
+  cbn [bind]. fold (st (eqe + 1 + blen value) (quote :: more)).
+  rewrite consume_byte_st by exact HW7. cbn [bind]. cbn [st s_pos].
+  replace (q + (blen (w :: ws) + blen (n :: name) + blen ws1 + 1 + blen ws2 + 1 + blen value + 1))
+    with (eqe + 1 + blen value + 1) by (unfold eqe, ne, start; lia).
+  replace (q + blen (w :: ws) + blen (n :: name) + blen ws1 + 1 + blen ws2) with eqe by (unfold eqe, ne, start; lia).
+  replace (q + blen (w :: ws) + blen (n :: name)) with ne by (unfold ne, start; lia).
+  replace (q + blen (w :: ws)) with start by reflexivity.
+  reflexivity.
+Qed.
+
+Definition end_tok (q : N) (empty : bool) : token :=
+  TElementEnd (if empty then EEmpty else EOpen) (q, q + (if empty then 2 else 1)).
+Definition tag_tail (empty : bool) : bytes := if empty then [47; 62] else [62].
+
+Lemma lex_elem_end fuel ts q ws_end empty post c :
+  W q (ws_end ++ tag_tail empty ++ post) -> Cst.wf_ws ws_end = true ->
+  parse_element_loop text C ev (S fuel) ts (st q (ws_end ++ tag_tail empty ++ post)) c =
+  let! c' := ev (end_tok (q + blen ws_end) empty) c in
+  Ok (negb empty, st (q + blen ws_end + blen (tag_tail empty)) post, c').
+Proof.
+  intros HW Hws. cbn [parse_element_loop]. rewrite at_end_st by exact HW.
+  assert (Hne : ws_end ++ tag_tail empty ++ post <> []) by (destruct ws_end, empty; discriminate).
+  destruct (ws_end ++ tag_tail empty ++ post) eqn:E0; [congruence|]. rewrite <- E0. clear E0 Hne. cbv zeta.
+  rewrite skip_spaces_st; [|exact HW|apply ws_spaces; exact Hws|destruct empty; reflexivity].
+  pose proof (W_app _ _ _ HW) as HW1. unfold end_tok. destruct empty; cbn [tag_tail app negb] in *.
+  - rewrite curr_byte_st by exact HW1. cbn [bind]. change (47 =? 47) with true. cbv iota.
+    rewrite advance1_st by exact HW1. cbn [bind].
+    rewrite consume_byte_st by (apply (W_cons _ _ _ HW1)). cbn [bind st s_pos].
+    change (blen [47; 62]) with 2. replace (q + blen ws_end + 1 + 1) with (q + blen ws_end + 2) by lia.
+    reflexivity.
+  - rewrite curr_byte_st by exact HW1. cbn [bind]. change (62 =? 47) with false. change (62 =? 62) with true. cbv iota.
+    rewrite advance1_st by exact HW1. cbn [bind st s_pos]. change (blen [62]) with 1. reflexivity.
+Qed.
+
+Lemma lex_elem_loop ts ws_end empty post : forall attrs q c fuel,
+  W q (flat_map Cst.r_attr attrs ++ ws_end ++ tag_tail empty ++ post) ->
+  forallb Cst.wf_attr attrs = true -> Cst.wf_ws ws_end = true -> (length attrs < fuel)%nat ->
+  parse_element_loop text C ev fuel ts (st q (flat_map Cst.r_attr attrs ++ ws_end ++ tag_tail empty ++ post)) c =
+  let q' := q + blen (flat_map Cst.r_attr attrs) + blen ws_end in
+  let! c1 := evs (attr_toks q attrs) c in
+  let! c2 := ev (end_tok q' empty) c1 in
+  Ok (negb empty, st (q' + blen (tag_tail empty)) post, c2).
+Proof.
+  induction attrs as [|a attrs IH]; intros q c fuel HW Ha Hws Hf; cbv zeta.
+  - cbn [flat_map app attr_toks evs bind] in *. rewrite blen_nil, N.add_0_r.
+    destruct fuel as [|fu]; [cbn in Hf; lia|]. apply lex_elem_end; assumption.
+  - cbn [forallb] in Ha. apply andb_true_iff in Ha. destruct Ha as [Ha1 Ha2].
+    cbn [length] in Hf. destruct fuel as [|fu]; [lia|].
+    cbn [flat_map attr_toks evs] in *. rewrite <- app_assoc in *.
+    rewrite lex_attr_iter by assumption.
+    destruct (ev (attr_tok q a) c) as [c'| | |]; cbn [bind]; try reflexivity.
+    rewrite IH; [|apply (W_app _ _ _ HW)|exact Ha2|exact Hws|lia]. cbv zeta.
+    rewrite blen_app. rewrite !N.add_assoc. reflexivity.
+Qed.
+
+Lemma flat_attr_len attrs : (length attrs <= length (flat_map Cst.r_attr attrs))%nat.
+Proof.
+  induction attrs as [|a attrs IH]; cbn [flat_map length]; [lia|]. rewrite app_length.
+  unfold Cst.r_attr at 1. rewrite !app_length. cbn [length]. lia.
+Qed.
+
+Lemma attrs_name_stop attrs ws_end empty post :
+  forallb Cst.wf_attr attrs = true -> Cst.wf_ws ws_end = true ->
+  name_stop (flat_map Cst.r_attr attrs ++ ws_end ++ tag_tail empty ++ post).
+Proof.
+  intros Ha Hws. destruct attrs as [|a attrs].
+  - cbn [flat_map app]. apply ws_stop_name; [exact Hws|]. destruct empty; cbn [tag_tail app name_stop];
+      apply not_name_byte_lit; auto.
+  - cbn [forallb] in Ha. apply andb_true_iff in Ha. destruct Ha as [Ha _].
+    destruct (wf_attr_parts _ Ha) as (Hne & Hw & _). cbn [flat_map]. unfold Cst.r_attr.
+    destruct (Cst.a_ws a) as [|w ws]; [congruence|]. cbn [app name_stop].
+    cbn [Cst.wf_ws forallb] in Hw. apply andb_true_iff in Hw. apply ws_not_name_byte. apply Hw.
+Qed.
+
+Definition start_toks (p : N) (name : bytes) (attrs : list Cst.attr) : list token :=
+  TElementStart (sl (p + 1) (p + 1)) (sl (p + 1) (p + 1 + blen name)) p :: attr_toks (p + 1 + blen name) attrs.
+
+Lemma lex_element p name attrs ws_end empty post c :
+  W p ([60] ++ name ++ flat_map Cst.r_attr attrs ++ ws_end ++ tag_tail empty ++ post) ->
+  Cst.wf_name name = true -> forallb Cst.wf_attr attrs = true -> Cst.wf_ws ws_end = true ->
+  let q' := p + 1 + blen name + blen (flat_map Cst.r_attr attrs) + blen ws_end in
+  parse_element text C ev (st p ([60] ++ name ++ flat_map Cst.r_attr attrs ++ ws_end ++ tag_tail empty ++ post)) c =
+  let! c1 := evs (start_toks p name attrs) c in
+  let! c2 := ev (end_tok q' empty) c1 in
+  Ok (negb empty, st (q' + blen (tag_tail empty)) post, c2).
+Proof.
+  intros HW Hn Ha Hws q'. unfold parse_element. cbv zeta. cbn [st s_pos].
+  fold (st p ([60] ++ name ++ flat_map Cst.r_attr attrs ++ ws_end ++ tag_tail empty ++ post)).
+  rewrite (advance_st 1 p [60]) by (try reflexivity; exact HW). cbn [bind].
+  pose proof (W_app _ _ _ HW) as HW1. change (blen [60]) with 1 in HW1.
+  rewrite consume_qname_st; [|exact HW1|exact Hn|apply attrs_name_stop; assumption]. cbn [bind].
+  unfold start_toks. cbn [evs].
+  destruct (ev _ c) as [c0| | |]; cbn [bind]; try reflexivity.
+  pose proof (W_app _ _ _ HW1) as HW2.
+  rewrite lex_elem_loop; [|exact HW2|exact Ha|exact Hws|].
+  2:{ cbn [st s_rest]. rewrite app_length. pose proof (flat_attr_len attrs). lia. }
+  reflexivity.
+Qed.
+
+(* ---- end tags ---- *)
+
+Lemma lex_close p name ws2 post c : W p ([60; 47] ++ name ++ ws2 ++ [62] ++ post) ->
+  Cst.wf_name name = true -> Cst.wf_ws ws2 = true ->
+  let e := p + 2 + blen name + blen ws2 + 1 in
+  parse_close_element text C ev (st p ([60; 47] ++ name ++ ws2 ++ [62] ++ post)) c =
+  let! c' := ev (TElementEnd (EClose (sl (p + 2) (p + 2)) (sl (p + 2) (p + 2 + blen name))) (p, e)) c in
+  Ok (st e post, c').
+Proof.
+  intros HW Hn Hws e. unfold parse_close_element. cbv zeta. cbn [st s_pos].
+  fold (st p ([60; 47] ++ name ++ ws2 ++ [62] ++ post)).
+  rewrite (advance_st 2 p [60; 47]) by (try reflexivity; exact HW). cbn [bind].
+  pose proof (W_app _ _ _ HW) as HW1. change (blen [60; 47]) with 2 in HW1.
+  rewrite consume_qname_st; [|exact HW1|exact Hn|].
+  2:{ apply ws_stop_name; [exact Hws|]. cbn [app name_stop]. apply not_name_byte_lit. auto. }
+  cbn [bind]. pose proof (W_app _ _ _ HW1) as HW2.
+  rewrite skip_spaces_st; [|exact HW2|apply ws_spaces; exact Hws|reflexivity].
+  pose proof (W_app _ _ _ HW2) as HW3. cbn [app] in *.
+  rewrite consume_byte_st by exact HW3. cbn [bind st s_pos]. reflexivity.
 Qed.
 
 End Lex.
